@@ -2054,15 +2054,14 @@ int state_check(struct snapraid_state* state, int fix, block_off_t blockstart, b
 
 	error = 0;
 
-	/* skip degenerated cases of empty parity, or skipping all */
-	if (blockstart < blockmax) {
-		ret = state_check_process(state, fix, parity_ptr, blockstart, blockmax);
-		if (ret == -1) {
-			/* LCOV_EXCL_START */
-			++error;
-			/* continue, as we are already exiting */
-			/* LCOV_EXCL_STOP */
-		}
+	/* process also the degenerated cases of empty parity, or skipping all, */
+	/* because empty files, links and dirs don't use any parity block */
+	ret = state_check_process(state, fix, parity_ptr, blockstart, blockmax);
+	if (ret == -1) {
+		/* LCOV_EXCL_START */
+		++error;
+		/* continue, as we are already exiting */
+		/* LCOV_EXCL_STOP */
 	}
 
 	/* try to close only if opened */
